@@ -97,7 +97,6 @@ class Obs:
 
     def on_post(self, model, date):
         self.cur["post_at"] = len(self.cur["events"])
-        self.cur["post_date"] = date
         self.cur["vout"] = {a.name: a.vqip_out["volume"] for a in model.arcs.values()}
 
 
@@ -226,19 +225,18 @@ def run_case(case):
         with contextlib.redirect_stdout(io.StringIO()):
             m = build_case(case)
             obs = Obs(m)
-            info = {"river_order": list(m.river_discharge_order), "nodes": len(m.nodes), "arcs": len(m.arcs),
-                    "calls_per_step": None}
+            info = {"river_order": list(m.river_discharge_order), "nodes": len(m.nodes), "arcs": len(m.arcs)}
             flows, _, _, _ = m.run(dates=m.dates, verbose=False)
-        bad, order_bad, n = check_steps(m, obs, flows)
-        info["calls_per_step"] = len(obs.steps[0]["events"]) if obs.steps else 0
-        info["flowing"] = any(v > 0 for st in obs.steps for v in (st["vout"] or {}).values())
-        return bad, order_bad, n, None, info
-    except Exception as ex:
+    except Exception as ex:        # a run that raises is a matter for C12; it is counted and skipped here
         tb = traceback.extract_tb(ex.__traceback__)
         where = [f"{fr.filename.split('/')[-1]}:{fr.lineno}" for fr in tb][-3:]
         return [], [], 0, f"{type(ex).__name__}: {ex} at {where}", info
     finally:
         NG.set_pollutants("default")
+    bad, order_bad, n = check_steps(m, obs, flows)
+    info["calls_per_step"] = len(obs.steps[0]["events"]) if obs.steps else 0
+    info["flowing"] = any(v > 0 for st in obs.steps for v in (st["vout"] or {}).values())
+    return bad, order_bad, n, None, info
 
 
 # ---------------------------------------------------------------------------
@@ -345,7 +343,7 @@ def divergent_cases():
 
 # ---------------------------------------------------------------------------
 def payload(case):
-    p = {"config": NG.cfg_json(case["cfg"]), "kind": case["kind"], "orchestration": case.get("orchestration"),
+    p = {"config": NG.cfg_json(case["cfg"]), "case_kind": case["kind"], "orchestration": case.get("orchestration"),
          "builder": case.get("builder", "dicts")}
     if case.get("builder") == "instantiated":
         p.update({"inst_nodes": case["inst_nodes"], "inst_arcs": case["inst_arcs"]})
@@ -428,7 +426,7 @@ def run(rep, thorough):
 
 def replay(rep, p):
     """re-run the check on a recorded payload; reports again if it still fails; returns True when it failed"""
-    case = {"cfg": NG.cfg_from_json(p["config"]), "kind": p.get("kind", "netgen"), "orchestration": p.get("orchestration"),
+    case = {"cfg": NG.cfg_from_json(p["config"]), "kind": p.get("case_kind", "netgen"), "orchestration": p.get("orchestration"),
             "builder": p.get("builder", "dicts"), "inst_nodes": p.get("inst_nodes"), "inst_arcs": p.get("inst_arcs")}
     stats = {"timesteps": 0, "run_errors": 0, "divergent_order_failures": 0, "violations": 0}
     evaluate(rep, case, stats, set())
